@@ -72,7 +72,8 @@ JudgeState(e, bd) ==
   \cup (IF Want("C14") THEN Chk("c14.engine-fen", s.fen = Encode(pos, B!NoProgress(bd), B!FullMoves(bd))) ELSE {})
 
 JudgeCmd(e, bd) ==
-     Chk("c10.driver-died", e.sent = 1 /\ e.ready = 1 /\ e.dead = 0)
+     Chk("c10.driver-died", e.dead = 0)
+  \cup Chk("harness.no-answer-in-time", e.dead = 1 \/ (e.sent = 1 /\ e.ready = 1))
   \cup (IF e.ready = 1 /\ e.shape # "ucinewgame" THEN JudgeState(e, bd) ELSE {})
 
 JudgeReadout(e) ==
